@@ -647,6 +647,27 @@ func main() {
 	addRound(1, 0, &osm.OSM{Nodes: osm.Nodes{{ID: 1}}}, "corpus-noversion", 1)
 	addRound(1, 0, &osm.OSM{}, "corpus-empty", 0)
 	addRound(1, 0, &osm.OSM{Version: "0.6", Relations: osm.Relations{{ID: 5}}, Ways: osm.Ways{{ID: 6}}}, "corpus-nil-members-nodes", 2)
+	// documents that repeat a key: encoding/json applies every occurrence in order (Model.dec_occs)
+	for _, text := range []string{
+		`{"elements":[{"type":"node","id":5,"id":null,"user":"a","user":null,"visible":true,"visible":null,"timestamp":"2012-01-01T00:00:00Z","timestamp":null}]}`,
+		`{"generator":5,"generator":"x","elements":[]}`,
+		`{"elements":[{"type":"node","id":1,"tags":{"a":"1"},"tags":{"b":"2"}}]}`,
+		`{"elements":[{"type":"node","id":1,"tags":{"a":"1"},"tags":null}]}`,
+		`{"elements":[{"type":"way","id":1,"nodes":[1],"nodes":[2,3]},{"type":"way","id":2,"nodes":[1],"nodes":null}]}`,
+		`{"version":"1","version":null,"elements":[]}`,
+		`{"version":null,"Version":0.6,"elements":[]}`,
+		`{"elements":[{"type":"node","id":"x","id":1}]}`,
+		`{"elements":[{"type":"node","TYPE":"way","id":1}]}`,
+		`{"elements":[{"type":"node","id":1,"lat":1.5,"Lat":2.5,"LAT":null}]}`,
+	} {
+		doc, err := readTree([]byte(text))
+		if err != nil {
+			panic(err)
+		}
+		for cfg := range configs {
+			w.Add(docCase(cfg, doc, nil, decodeDoc(cfg, []byte(text)), "corpus-duplicate-keys/"+configs[cfg]))
+		}
+	}
 	for _, text := range []string{`{"elements":[]}`, `{"version":0.6,"elements":[]}`, `{"version":"0.6","generator":"g"}`, `{"version":null}`, `{}`} {
 		doc, err := readTree([]byte(text))
 		if err != nil {
@@ -681,6 +702,23 @@ func main() {
 			g := &gen{rng: rng, p: []float64{0, 0.3, 0.7, 1}[i%4], annot: true}
 			addRound(2, k, g.element(k), "elem/"+kinds[k], 0)
 			w.Count(fmt.Sprintf("density:%.1f", g.p))
+		}
+	}
+	// 1b. outside the round-trip domain: tags with duplicate keys (osm.Tags is a slice; osmjson
+	//     tags are an object): the last one wins. Model vs implementation and output shape only.
+	for i := 0; i < 4; i++ {
+		g := &gen{rng: rng, p: 0.5, annot: true}
+		k := i % 3
+		e := g.element(k)
+		dup := osm.Tags{{Key: "a", Value: "1"}, {Key: "b", Value: g.str()}, {Key: "a", Value: "2"}}
+		if i >= 2 {
+			dup = append(dup, osm.Tag{Key: "b", Value: "last"}, osm.Tag{Key: "", Value: ""}, osm.Tag{Key: "", Value: "x"})
+		}
+		reflect.ValueOf(e).Elem().FieldByName("Tags").Set(reflect.ValueOf(dup))
+		for cfg := range configs {
+			o := observeVia(cfg, e, 0, 0)
+			c := roundCase(7, k, e, o, "elem-duplicate-tag-keys/"+configs[cfg])
+			w.Add(c)
 		}
 	}
 	// 2. containers
